@@ -21,6 +21,19 @@ Entry(k) == [k |-> k, opt |-> FALSE, nk |-> <<>>]
 OwnKeys(n) == [i \in 1..n |-> Entry(K(i))]
 OwnOrigin(n) == [i \in 1..n |-> [via |-> "root", origin |-> "root"]]
 
+(* A second family, "fan": m heirs WITHOUT own properties, each listing the same first type (bk keys b1..) and a     *)
+(* second type of its own (one key: the same name "name" in every second type, or a name of its own); the root has   *)
+(* one property per heir.  Every heir is the first type's keys followed by its own second type's key, whatever the  *)
+(* other heirs inherit - and two heirs that inherit the same name from different types are not a duplicate.          *)
+FanTypes(m, bk, same) ==
+  << [name |-> "base", d |-> [kind |-> "object", own |-> [i \in 1..bk |-> [k |-> "b" \o ToString(i), opt |-> FALSE, sub |-> <<>>]], allOf |-> <<>>, ap |-> "absent"]] >>
+  \o [i \in 1..m |-> [name |-> "p" \o ToString(i), d |-> One(IF same THEN "name" ELSE "n" \o ToString(i))]]
+  \o [i \in 1..m |-> [name |-> "h" \o ToString(i), d |-> [kind |-> "object", own |-> <<>>, allOf |-> <<"base", "p" \o ToString(i)>>, ap |-> "absent"]]]
+FanExpect(m, bk, same) == [i \in 1..m |-> [j \in 1..bk |-> "b" \o ToString(j)] \o << IF same THEN "name" ELSE "n" \o ToString(i) >>]
+EmitFan == \A m \in {2, 3}, bk \in {1, 2, 4, 5, 6}, same \in BOOLEAN :
+             PrintT(ToJson([fan |-> [m |-> m, bk |-> bk, same |-> same], types |-> FanTypes(m, bk, same), heirs |-> FanExpect(m, bk, same)]))
+ASSUME EmitFan
+
 VARIABLES case
 Init == case = [mode |-> "none"]
 Pick(c) == case.mode = "none" /\ case' = c
